@@ -28,6 +28,8 @@ func checkC14(ctx *Ctx, r *Report) {
 	c14FreshGenerator(ctx, r)
 	c14Generator(ctx, r, p)
 	c14Templates(ctx, r, p)
+	c14ConverterNames(ctx, r)
+	c14GuardsAndTypes(ctx, r)
 }
 
 func c14FreshGenerator(ctx *Ctx, r *Report) {
@@ -314,4 +316,185 @@ func c14Templates(ctx *Ctx, r *Report, p *packages.Package) {
 	}
 	r.Count("ArgumentMapping members × converter languages", n)
 	r.Floor("ArgumentMapping members × converter languages", 18)
+}
+
+// ---------------------------------------------------------------------------
+// Rules added after the second generation of seeds.
+
+// c14ConverterNames: a converter function is declared under (Builder.Package, Builder.Name) — Converter{Package, BuilderName}
+// in FromBuilder — and referred to from the converters of other builders through BuilderArgMapping{BuilderPkg, BuilderName}.
+// Both sides must read the same two fields of the same builder: the object's own package differs from the builder's for
+// foreign and composed builders, and a reference built from it names a function that does not exist.
+func c14ConverterNames(ctx *Ctx, r *Report) {
+	p := ctx.Pkg("internal/languages")
+	pkgF, nameF := astField(ctx, "Builder", "Package"), astField(ctx, "Builder", "Name")
+	if p == nil || pkgF == nil || nameF == nil {
+		r.Undecided("anchor lost: ast.Builder.Package / Name")
+		return
+	}
+	info := p.TypesInfo
+	n := 0
+	for _, file := range p.Syntax {
+		var fn string
+		ast.Inspect(file, func(m ast.Node) bool {
+			if fd, ok := m.(*ast.FuncDecl); ok {
+				fn = fd.Name.Name
+			}
+			cl, ok := m.(*ast.CompositeLit)
+			if !ok {
+				return true
+			}
+			nt := namedOf(info.TypeOf(cl))
+			if nt == nil {
+				return true
+			}
+			var pkgKey, nameKey string
+			switch nt.Obj().Name() {
+			case "BuilderArgMapping":
+				pkgKey, nameKey = "BuilderPkg", "BuilderName"
+			case "Converter":
+				pkgKey, nameKey = "Package", "BuilderName"
+			default:
+				return true
+			}
+			var pkgV, nameV ast.Expr
+			for _, el := range cl.Elts {
+				if kv, ok := el.(*ast.KeyValueExpr); ok {
+					if id, ok := kv.Key.(*ast.Ident); ok {
+						switch id.Name {
+						case pkgKey:
+							pkgV = kv.Value
+						case nameKey:
+							nameV = kv.Value
+						}
+					}
+				}
+			}
+			if pkgV == nil && nameV == nil {
+				return true
+			}
+			n++
+			why := ""
+			ps, ok1 := ast.Unparen(pkgV).(*ast.SelectorExpr)
+			ns, ok2 := ast.Unparen(nameV).(*ast.SelectorExpr)
+			switch {
+			case pkgV == nil || nameV == nil:
+				why = "only one of the two names is set"
+			case !ok1 || fieldOf(info, ps) != pkgF:
+				why = fmt.Sprintf("%s is %s, not the Package of a builder", pkgKey, exprString(pkgV))
+			case !ok2 || fieldOf(info, ns) != nameF:
+				why = fmt.Sprintf("%s is %s, not the Name of a builder", nameKey, exprString(nameV))
+			case exprString(ps.X) != exprString(ns.X):
+				why = fmt.Sprintf("package and name are read from two different builders (%s, %s)", exprString(ps.X), exprString(ns.X))
+			}
+			r.Check(why == "", "siblings/converter-name", fmt.Sprintf("languages.%s %s literal #%d", fn, nt.Obj().Name(), n), cl.Pos(), "declared and referred to as (Builder.Package, Builder.Name) of one builder",
+				fmt.Sprintf("languages.%s: %s — converters are declared under the builder's own package and name (FromBuilder); a reference computed differently names a function that does not exist whenever the builder lives in another package than its object (foreign builders, compose_builders)", fn, why))
+			return true
+		})
+	}
+	r.Count("declarations of and references to converter functions", n)
+	r.Floor("declarations of and references to converter functions", 3)
+}
+
+// c14GuardsCoverOption: the guards of an option mapping decide whether the option call is printed; they must be computed
+// from *all* assignments of the option (option.Assignments), including those whose path another option already produced:
+// an option that also sets an already-converted field to a constant must not be printed when the input has another value
+// there. c14ValueTypeOfPath: a DirectArgMapping whose value path is an assignment's path describes a field of the input
+// object: its type is the type at the end of that path, not the type of the builder's argument (veneers change the latter:
+// promoted constructor arguments lose their nullability).
+func c14GuardsAndTypes(ctx *Ctx, r *Report) {
+	p := ctx.Pkg("internal/languages")
+	fn := ctx.LookupMethod("internal/languages", "ConverterGenerator", "mappingForOption")
+	fd, _ := ctx.DeclOf(fn)
+	guardFn := ctx.LookupMethod("internal/languages", "ConverterGenerator", "guardForAssignments")
+	if p == nil || fd == nil || guardFn == nil {
+		r.Undecided("anchor lost: ConverterGenerator.mappingForOption / guardForAssignments")
+		return
+	}
+	info := p.TypesInfo
+	var optParam types.Object
+	for _, f := range fd.Type.Params.List {
+		for _, nm := range f.Names {
+			if t := namedOf(info.TypeOf(nm)); t != nil && t.Obj().Name() == "Option" {
+				optParam = info.Defs[nm]
+			}
+		}
+	}
+	n := 0
+	ast.Inspect(fd.Body, func(m ast.Node) bool {
+		c, ok := m.(*ast.CallExpr)
+		if !ok || callee(info, c) != guardFn || len(c.Args) < 2 {
+			return true
+		}
+		n++
+		whole := false
+		if sel, ok := ast.Unparen(c.Args[1]).(*ast.SelectorExpr); ok && sel.Sel.Name == "Assignments" {
+			if id, ok := ast.Unparen(sel.X).(*ast.Ident); ok && objOf(info, id) == optParam {
+				whole = true
+			}
+		}
+		r.Check(whole, "flow/guards-cover-option", "ConverterGenerator.mappingForOption guards", c.Pos(), "computed from option.Assignments as a whole",
+			fmt.Sprintf("the guards of an option are computed from %s, not from all of the option's assignments: an option that also assigns a constant to a path another option already produced is printed even when the input holds another value there — the rebuilt object differs from the input", exprString(c.Args[1])))
+		return true
+	})
+	r.Count("guard computations in mappingForOption", n)
+	r.Floor("guard computations in mappingForOption", 1)
+
+	argT := ctx.LookupType("internal/ast", "Argument")
+	asgT := ctx.LookupType("internal/ast", "Assignment")
+	k := 0
+	for _, file := range p.Syntax {
+		var fname string
+		ast.Inspect(file, func(m ast.Node) bool {
+			if d, ok := m.(*ast.FuncDecl); ok {
+				fname = d.Name.Name
+			}
+			cl, ok := m.(*ast.CompositeLit)
+			if !ok {
+				return true
+			}
+			if nt := namedOf(info.TypeOf(cl)); nt == nil || nt.Obj().Name() != "DirectArgMapping" {
+				return true
+			}
+			var pathV, typeV ast.Expr
+			for _, el := range cl.Elts {
+				if kv, ok := el.(*ast.KeyValueExpr); ok {
+					if id, ok := kv.Key.(*ast.Ident); ok {
+						switch id.Name {
+						case "ValuePath":
+							pathV = kv.Value
+						case "ValueType":
+							typeV = kv.Value
+						}
+					}
+				}
+			}
+			if pathV == nil || typeV == nil {
+				return true
+			}
+			fromAssignment := false
+			ast.Inspect(pathV, func(q ast.Node) bool {
+				if s, ok := q.(*ast.SelectorExpr); ok && s.Sel.Name == "Path" && namedOf(info.TypeOf(s.X)) == asgT {
+					fromAssignment = true
+				}
+				return true
+			})
+			if !fromAssignment {
+				return true
+			}
+			k++
+			throughArg := ""
+			ast.Inspect(typeV, func(q ast.Node) bool {
+				if s, ok := q.(*ast.SelectorExpr); ok && namedOf(info.TypeOf(s.X)) == argT && throughArg == "" {
+					throughArg = exprString(s)
+				}
+				return true
+			})
+			r.Check(throughArg == "", "flow/value-type-of-path", fmt.Sprintf("languages.%s direct mapping on an assignment path #%d", fname, k), cl.Pos(), "the value's type is not taken from a builder argument",
+				fmt.Sprintf("languages.%s maps the value found at an assignment's path with the type %s of a builder *argument*: veneers change argument types (promote_options_to_constructor drops nullability) while the object's field keeps its own — the converter formats a pointer as if it were a value", fname, throughArg))
+			return true
+		})
+	}
+	r.Count("direct mappings on assignment paths", k)
+	r.Floor("direct mappings on assignment paths", 1)
 }
